@@ -415,3 +415,6 @@ def run(P, R, tier):
     _idx.check_class_select(P, R, "factor_analysis:FactorAnalysisBase._get_statistics_by_class_id")
     from ..engines import proto as _pp
     _pp.check_pairwise_folds(P, R, ['factor_analysis', 'ivector', 'utils'])
+
+
+EXPLANATION += ' Also: the halving tree is decided on a normalised form of the loop (length / half expressions, new list by comprehension or appended in a for loop, odd carry taken from the old list), in fit or in a fold helper; (COVER.pairs) neighbour-pairing reductions keep the unpaired element.'
